@@ -240,8 +240,14 @@ package commitlog
 // while the clean ran - from the base offset of the segment that was active when the clean started - are carried over
 // into the rebuilt history before it replaces the log's
 //@ ghost var epochsCarriedOver bool
+// (C09: "afterwards every configured limit holds" - of EVERY clean: the message and byte limits count the active segment
+//  too, which grows between two cleans without any roll, so no clean may be skipped because "nothing was sealed since")
+//@ ghost var limitsApplied bool
 //@ func (*commitLog).Clean serves C09, C02, C08
 //@   requires l != nil
+//@   ghost at entry: ghost.limitsApplied := false
+//@   ghost after call clean: ghost.limitsApplied := true
+//@   ensures [C09:every-clean-applies-the-configured-limits-to-the-log-as-it-is-now] result == nil ==> ghost.limitsApplied
 //@   ghost at entry: ghost.epochsCarriedOver := false
 //@   ghost after call Rebase: ghost.epochsCarriedOver := arg0 == epochCache && arg1 == l.leaderEpochCache && len(oldSegments) >= 1 && arg2 <= oldSegments[len(oldSegments)-1].BaseOffset
 //@   call Replace requires [C02:epochs-that-started-while-the-clean-ran-are-carried-over] ghost.epochsCarriedOver
